@@ -181,6 +181,7 @@ def _work(args):
 
 def main(argv):
     jobs, files, ops, sample, out = 10, None, None, None, os.path.join(extract.CACHE, "mutation-report.json")
+    ids, only_props = None, None
     it = iter(argv)
     for a in it:
         if a == "-j":
@@ -193,15 +194,22 @@ def main(argv):
             sample = int(next(it))
         elif a == "--out":
             out = next(it)
+        elif a == "--ids":
+            ids = set(next(it).split(","))
+        elif a == "--props":
+            only_props = next(it).split(",")
         elif a == "--list":
             for m in generate(files, ops):
                 print(m["id"], m["file"], m["line"], m["op"], "|", m["new"].strip()[:120])
             return 0
     ms = generate(files, ops)
+    if ids:
+        ms = [m for m in ms if m["id"] in ids]
+        out = os.path.join(extract.CACHE, "mutation-subset.json")
     if sample and sample < len(ms):
         random.Random(1).shuffle(ms)
         ms = sorted(ms[:sample], key=lambda m: m["id"])
-    props = ["C%02d" % i for i in range(1, 21)]
+    props = only_props or ["C%02d" % i for i in range(1, 21)]
     print("mutate: %d mutants, %d workers" % (len(ms), jobs))
     t0 = time.time()
     buckets = [[] for _ in range(jobs)]
@@ -221,6 +229,9 @@ def main(argv):
     with open(out, "w") as fh:
         json.dump({"tree": extract.tree_hash(), "wall_s": round(time.time() - t0), "counts": {k: len(v) for k, v in by.items()}, "results": results}, fh, indent=1)
     print("mutate: %s  [%.0fs]  report: %s" % ({k: len(v) for k, v in by.items()}, time.time() - t0, out))
+    if ids:
+        for r in by.get("killed", []):
+            print("KILLED   %s %s:%d %s | %s" % (r["id"], r["file"], r["line"], r["op"], sorted(k for ks in r["fired"].values() for k in ks)[:3]))
     for r in by.get("survived", []):
         print("SURVIVED %s %s:%d %s | %s" % (r["id"], r["file"], r["line"], r["op"], r["new"].strip()[:110]))
     return 0
